@@ -60,9 +60,12 @@ class PES(MPEGPacket):
         prefix = (_prefix1 << 16) + _prefix2
         if prefix != 1:
             raise Exception(f"PES Prefix {prefix:#0X} should be 0x1")
-        # Peek to see if the data is an extension
-        (optional_hdr, _miscbits, _pes_hdr_len) = struct.unpack_from(">BBB", self.payload, 6)
-        marker = optional_hdr >> 4
+        # Peek to see if the data is an extension. Fewer than 3 bytes after the prefix cannot hold the optional header
+        if len(self.payload) >= 9:
+            (optional_hdr, _miscbits, _pes_hdr_len) = struct.unpack_from(">BBB", self.payload, 6)
+            marker = optional_hdr >> 4
+        else:
+            marker = None
         expected_len_if_extension_present = _peslength + 6
         if marker == 0x8 and len(self.payload) == expected_len_if_extension_present:
             # PES extenion
